@@ -41,6 +41,8 @@ type LoopSpec struct {
 	SplitVars  []Clause    // case split on the skolemised bound variable of quantified invariants (inv-keep)
 	Snaps      [][2]string // ghost snapshots taken at loop entry: name, expression text
 	SnapsAfter [][2]string // ghost snapshots taken at loop exit
+	headState  *State      // the state the invariants were last assumed in (loop head), for ground instances at skolem constants
+	headPos    token.Pos
 }
 
 type Contract struct {
